@@ -49,7 +49,8 @@ class PipeRig:
         self.loop = VLoop(); self.clock = Clock(); proto.time = self.clock
         class Tuning(TransportTuning):
             OBSERVATION_RESET_TIME = Fraction(reset_us, SEC)
-        req = aiocoap.Message(code=aiocoap.GET, transport_tuning=Tuning())
+        # reset_us < 0: the library's own, unmodified TransportTuning (128 s)
+        req = aiocoap.Message(code=aiocoap.GET, transport_tuning=(Tuning() if reset_us >= 0 else TransportTuning()))
         if has_obs: req.opt.observe = 0
         self.out = []
         with self.loop.enter():
@@ -298,7 +299,7 @@ class C07(fw.Property):
     coq_props = "Props/C07.v"
     gen_jobs = ["protocol_is_recent"]
     model_imports = ["Verif.Lib.Py", "Verif.Gen.protocol_is_recent", "Verif.Model.C07", "Verif.Model.C07Stack", "Verif.Model.C07Iter", "Verif.Model.C07Blockwise"]
-    quick_budget = 240
+    quick_budget = 180
     thorough_budget = 9000
     design_ref = "DESIGN.md section 12"
     technique = ("Coq proofs (induction over all event lists, order theory on 24-bit serial numbers) over an executable model of Request._run / "
@@ -338,7 +339,10 @@ class C07(fw.Property):
                     "hand-written Model/C07.v (validated by the `pipe` stream)",
                     "harness/simloop.py virtual loop (FIFO ready queue); scripted exact clock bound to aiocoap.protocol.time"]
     assumptions = ["time.time() idealised as an exact rational clock (no float rounding)",
-                   "application callbacks do not call back into the observation re-entrantly"]
+                   "application callbacks do not call back into the observation re-entrantly",
+                   "the application does not call observation.cancel() itself before the first response is final (else RuntimeError leaves the pipe: no_exception_leaves_the_pipe has this hypothesis)",
+                   "response datagrams are unicast and the context is not shut down (multicast key fallback / is_multicast_locally / dispatch_error after shutdown not modelled)",
+                   "the un-ACKed CON request gives up after exactly 62 s (ACK_TIMEOUT drawn at its lower bound by the pinned random source)"]
 
     def setup(self):
         import aiocoap.protocol as proto
@@ -459,6 +463,8 @@ class C07(fw.Property):
                 code = 69 if not (adversarial and rng.random() < 0.05) else 132
                 ops.append(["resp", mt(), e, tok(), adversarial and rng.random() < 0.03, code, t])
             if adversarial and rng.random() < 0.05: ops.append(["empty", rng.choice(["ACK", "RST"]), rng.random() < 0.5, t])
+            if rng.random() < (0.08 if adversarial else 0.02):          # a Reset that carries a response code and the observation's token
+                ops.append(["resp", "RST", rng.choice([None, 5, v0]), 1, rng.random() < 0.3, rng.choice([69, 132]), t])
         ops.append(["app", ["drain"], t])
         return {"has_obs": has_obs, "reset": reset, "con": con, "t0": ops[0][2], "ops": ops}
 
@@ -562,6 +568,11 @@ class C07(fw.Property):
             rows.append([v1, v2, t1, t2, reset])
         for i in range(0, len(rows), 40):
             yield "fresh", {"rows": rows[i:i + 40]}
+        # the library's own TransportTuning (no subclass): the 128 s of the property text must come out of numbers/constants.py
+        yield "fresh", {"rows": [[v1, v2, 7 * SEC, 7 * SEC + dt, -1] for v1, v2 in ((5, 5), (5, 4), (4, 5), (W - 1, 0), (0, H))
+                                 for dt in (0, DEFAULT_RESET - 1, DEFAULT_RESET, DEFAULT_RESET + 1)]}
+        d = self.gen_pipe(rng, False); d["reset"] = -1
+        yield "pipe", d
         for j in range(n):
             if j % 3 == 0: yield "pipe", self.gen_pipe(rng, adversarial=(j % 15 == 12))
             elif j % 3 == 1: yield "stack", self.gen_stack(rng, adversarial=(j % 15 == 13))
@@ -616,13 +627,16 @@ class C07(fw.Property):
         raise ValueError(k)
     def model(self, stream, inp):
         if stream == "fresh":
-            return glist(["is_recent %s %s %s %s %s" % tuple(gz(x) for x in row) for row in inp["rows"]])
+            return glist(["is_recent %s %s %s %s %s" % (gz(row[0]), gz(row[1]), gz(row[2]), gz(row[3]), self.g_reset(row[4])) for row in inp["rows"]])
         if stream == "bw":
             return "brun (bw0 %s %s) %s" % (gz(inp["reset"]), gz(inp["t0"]), glist([self.g_bop(i, o) for i, o in enumerate(inp["ops"])]))
         if stream == "stack":
             return "srun (stack0 %s %s %s %s) %s" % (gbool(inp["has_obs"]), gz(inp["reset"]), gbool(inp["con"]), gz(inp["t0"]),
                                                     glist([self.g_sop(i, o) for i, o in enumerate(inp["ops"])]))
-        return "run (sys0 %s %s) %s" % (gbool(inp["has_obs"]), gz(inp["reset"]), glist([self.g_op(i, o) for i, o in enumerate(inp["ops"])]))
+        return "run (sys0 %s %s) %s" % (gbool(inp["has_obs"]), self.g_reset(inp["reset"]), glist([self.g_op(i, o) for i, o in enumerate(inp["ops"])]))
+    def g_reset(self, reset):
+        """-1 stands for the library's unmodified tuning: the model takes the constant translated from numbers/constants.py"""
+        return "(OBSERVATION_RESET_TIME * 1000000)" if reset < 0 else gz(reset)
     def g_blk(self, b2):
         if b2 is None: return "BNone"
         return "(BBlock %s %s %s)" % (gz(b2[0]), gbool(b2[1]), gbool(not (len(b2) > 2 and b2[2] == "short")))
@@ -691,14 +705,16 @@ class C07(fw.Property):
             return ("C07:crash:" + res["where"], "implementation raised %s: %s" % (res["harness_exception"], res.get("text")))
         if stream == "fresh":
             for (v1, v2, t1, t2, reset), got in zip(inp["rows"], res):
+                if reset < 0: reset = DEFAULT_RESET           # unmodified tuning: the property text's 128 s
                 want = rfc_fresh(v1, t1, v2, t2, reset)
                 if got != want:
                     return ("C07:stale-delivered" if got else "C07:fresh-dropped",
                             "Observe %d at %d us after accepted %d at %d us (reset %d us): delivered=%s, RFC 7641 3.4 says fresh=%s" % (v2, t2, v1, t1, reset, got, want))
             return None
-        if stream == "stack": return self.oracle_stack(inp, res)
-        if stream == "bw": return self.oracle_bw(inp, res)
-        return self.oracle_pipe(inp, res)
+        # findings that do not stop the evaluation of the rest of the case (reported only if nothing else is wrong with it)
+        self._deferred = []
+        r = self.oracle_stack(inp, res) if stream == "stack" else (self.oracle_bw(inp, res) if stream == "bw" else self.oracle_pipe(inp, res))
+        return r or (self._deferred[0] if self._deferred else None)
 
     def oracle_bw(self, inp, res):
         """the property on the OUTER observation of a BlockwiseRequest (observer registered from the start)"""
@@ -775,7 +791,7 @@ class C07(fw.Property):
         return None
 
     def oracle_pipe(self, inp, res):
-        ops = inp["ops"]; reset = inp["reset"]
+        ops = inp["ops"]; reset = inp["reset"] if inp["reset"] >= 0 else DEFAULT_RESET
         has_obs = inp["has_obs"]
         user_cancel = None       # index of the first cancel_obs / cancel_resp: the application's own end
         seen_event = False
@@ -839,7 +855,12 @@ class C07(fw.Property):
                 if o[0] == "msg" and not o[2]:
                     # first response without Observe although the pipe announced more: inconsistent pipe, no claim
                     state = "ended"; end_seen = i; continue
-                if ebs != ["NotObservable"]: return ("C07:wrong-end-signal", "first response %r without Observe: errback got %r, expected NotObservable" % (o, ebs))
+                if o[0] == "exn":
+                    # the property text: the observation ends "with a network error on transport failure"
+                    if ebs == ["NotObservable"]:
+                        self._deferred.append(("C07:first-failure-signalled-as-not-observable", "the request failed with %s before any response: request.response got the exception, but the observation was told NotObservable" % o[1]))
+                    elif ebs != [kind_name(o[1])]: return ("C07:wrong-end-signal", "request failed with %s: errback got %r" % (o[1], ebs))
+                elif ebs != ["NotObservable"]: return ("C07:wrong-end-signal", "first response %r without Observe: errback got %r, expected NotObservable" % (o, ebs))
                 state = "ended"; end_seen = i; continue
             # observing
             if o[0] == "exn":
@@ -907,6 +928,14 @@ class C07(fw.Property):
             while j < len(want) and want[j] != g: j += 1
             if j == len(want): return ("C07:iterator-not-subsequence", "iterator yielded %r, observer 0 was handed %r" % (got, want))
             j += 1
+        # the response that ended the observation (handed to observer 0 right before ObservationCancelled, in the same op,
+        # after the iteration had started) must be yielded before the iteration stops: "the final response followed by a
+        # cancellation signal" holds on the iterator interface too
+        if eb_idx is not None and eb_idx > it_at and ("stop", None) in got:
+            seq = [x for x in res[eb_idx] if x[0] in ("cb", "eb") and x[1] == 0]
+            if len(seq) >= 2 and seq[-1] == ["eb", 0, "ObservationCancelled"] and seq[-2][0] == "cb" and ("m", seq[-2][2]) not in got:
+                return ("C07:iter-final-response-lost", "response %d ended the observation (observer 0 got it, then ObservationCancelled) but the async iterator "
+                        "stopped without yielding it: yielded %r" % (seq[-2][2], got))
         if final_drain and want and (not got or got[-1] != want[-1]):
             return ("C07:iterator-missed-latest", "after the final drain the iterator's last item is %r, the latest handed over is %r" % (got[-1:], want[-1]))
         return None
@@ -925,6 +954,7 @@ class C07(fw.Property):
         phase = "first"; v1 = t1 = None; exchange_open = con
         for i, (o, outs) in enumerate(zip(ops, outs_all)):
             t = o[-1]
+            if o[0] == "resp" and o[1] == "RST": o = ["empty", "RST", o[4], o[6]]     # a Reset with a code is only a Reset
             if user_cancel is not None and i >= user_cancel:
                 if i > user_cancel and any(x[0] in ("cb", "eb") and x[1] == 0 for x in outs):
                     return ("C07:delivered-after-cancel", "observer 0 got %r after the application cancelled" % (outs,))
@@ -936,7 +966,9 @@ class C07(fw.Property):
             to = ["resp_exn", "ConRetransmitsExceeded"] if phase == "first" else ["eb", 0, "ConRetransmitsExceeded"]
             if to in outs:
                 if not (exchange_open and t >= t0 + 62 * SEC): return ("C07:spurious-timeout", "ConRetransmitsExceeded at op %d although the request was acknowledged or 62 s have not passed" % i)
-                if phase == "first" and ["eb", 0, "NotObservable"] not in outs: return ("C07:wrong-end-signal", "request timed out but observer 0 was not told NotObservable: %r" % outs)
+                if phase == "first":
+                    if ["eb", 0, "NotObservable"] in outs: self._deferred.append(("C07:first-failure-signalled-as-not-observable", "the request timed out (ConRetransmitsExceeded) before any response, but the observation was told NotObservable"))
+                    elif ["eb", 0, "ConRetransmitsExceeded"] not in outs: return ("C07:wrong-end-signal", "request timed out but observer 0 got no end signal: %r" % outs)
                 outs = [x for x in outs if x != to and x != ["eb", 0, "NotObservable"] and x != ["eb", 0, "ConRetransmitsExceeded"]]
                 phase = "ended"; exchange_open = False
             cbs = [x[2] for x in outs if x[0] == "cb" and x[1] == 0]
@@ -949,8 +981,10 @@ class C07(fw.Property):
             def expect_end(first_kind, later_kind, what):
                 nonlocal phase
                 if phase == "first":
-                    if resp != [["resp_exn", first_kind]] or ebs != ["NotObservable"] or cbs:
+                    if resp != [["resp_exn", first_kind]] or ebs not in (["NotObservable"], [first_kind]) or cbs:
                         return ("C07:network-error-not-signalled", "%s before the first response: response future %r, observer 0 %r" % (what, resp, ebs))
+                    if ebs == ["NotObservable"]:
+                        self._deferred.append(("C07:first-failure-signalled-as-not-observable", "%s before the first response: request.response got %s, but the observation was told NotObservable" % (what, first_kind)))
                 elif phase == "observing":
                     if ebs != [later_kind] or cbs: return ("C07:network-error-not-signalled", "%s: observer 0 got %r %r" % (what, cbs, ebs))
                 elif cbs or ebs or resp: return ("C07:delivered-after-end", "%s after the end produced %r" % (what, outs))
